@@ -114,7 +114,7 @@ const OPS: &[&str] = &[
     "just", "any", "oneof", "noneof", "sel", "end", "empty", "cust", "probe", "cfgjust", "cfgjustr", "then", "ithen", "theni", "delim", "padded", "group",
     "grouparr", "or", "choice", "choicev", "ornot", "not", "andis", "rewind", "map", "to", "ignored", "filter", "trymap", "trymapw", "validate",
     "mw", "tospan", "toslice", "boxed", "lazy", "collect", "exact", "run", "foldl", "foldr", "foldlw", "foldrw", "recover", "label", "maperr",
-    "memo", "rec", "recd", "ref", "let", "var", "withctx", "thenctx", "ignctx", "mapctx", "withstate", "nested", "tree", "pratt", "rep", "sep", "enum", "cfgrep", "cfgrepmin", "cfgrepmax",
+    "memo", "rec", "recd", "ref", "let", "var", "withctx", "thenctx", "ignctx", "mapctx", "withstate", "nested", "tree", "pratt", "rep", "sep", "enum", "cfgrep", "cfgrepmin", "cfgrepmax", "cfgreptry",
     "via", "skipuntil", "retry", "nesteddelim", "mws", "anyr", "selr", "text", "tpadded", "sleq", "newline",
 ];
 fn is_node(j: &J) -> bool {
